@@ -380,6 +380,16 @@ def gen_cases(rng, count, nmin, nmax, kinds, max_len, cfg_choices=(100000,), two
         if h is None:
             break
         cases.append({"rules": rules, "config": {"max_motifs_per_node": 100000}, "history": h})
+    # ... and modular networks with PERMUTED variable names (the variables of a component are not adjacent) under one complete strategy
+    finals = {"bfs": ("bfs", None, None, None), "dfs": ("dfs", None, None, None), "min": ("min", None, None, False), "aseeds": ("aseeds", None),
+              "block": ("block", True, None, False, False), "blockplain": ("block", False, None, False, False), "scc": ("scc", True)}
+    fk = [k for k in kinds if k in finals]
+    for _ in range(count // 5 if fk else 0):
+        rules = permute_variables(rng2, modular_network(rng2, rng2.randint(max(nmin, 4), max(nmax, 4))))
+        op = finals[rng2.choice(fk)]
+        if op[0] == "block" and rng2.random() < 0.5:
+            op = ("block", rng2.random() < 0.5, None, rng2.random() < 0.5, False)
+        cases.append({"rules": rules, "config": {"max_motifs_per_node": 100000}, "history": [op]})
     return cases
 
 def _fix_worker(case):
